@@ -101,6 +101,8 @@ impl WriteStallController {
 		let mut stall_threshold: usize = 0;
 
 		loop {
+			#[cfg(surrealkv_verif)]
+			crate::verif::gate("stall.check", &[]);
 			// Create Notified FIRST to register for wakeups.
 			// Any notify_waiters() call after this point will wake us.
 			let notified = self.stall_cleared.notified();
